@@ -133,7 +133,7 @@ class Spec:
             self.add("")
 
 
-def make_spec(rng, noline):
+def make_spec(rng, noline, c99=False):
     S = Spec(rng, noline)
     R = rng
     if noline:
@@ -185,6 +185,8 @@ def make_spec(rng, noline):
     for it in items:
         if it[0] == "opt":
             S.add("%option noyywrap")
+            if c99:
+                S.add('%option emit="c99"')
         elif it[0] == "xc":
             S.add("%x XC")
         elif it[0] == "name":
@@ -300,7 +302,10 @@ def make_spec(rng, noline):
     S.add("\tfor (k = 0; k < sizeof all / sizeof all[0]; ++k)")
     S.add("\t\tvt_report(all[k]->id, all[k]->line, all[k]->file, all[k]->payload, all[k]->len);")
     S.add(S.stmt_tracer("sect3_code"))
-    S.add("\twhile (yylex() > 0) ;")
+    if c99:
+        S.add("\t{ yyscan_t vs; if (yylex_init(&vs)) return 9; while (yylex(vs) > 0) ; yylex_destroy(vs); }")
+    else:
+        S.add("\twhile (yylex() > 0) ;")
     S.add("\treturn 0;")
     S.add("}")
     S.spans.append(("sect3", a3, S.lineno() - 1))
@@ -339,7 +344,8 @@ def worker(args):
     chk, i = args
     rng = chk.rng("spec", i)
     noline = (i % 7 == 6)
-    S, text, inp = make_spec(rng, noline)
+    c99 = (i % 6 == 3)          # the same specification through the c99 skeleton
+    S, text, inp = make_spec(rng, noline, c99)
     flex = chk.flex("san")
     d = os.path.join(chk.scratch.path, "c%d" % i)
     os.makedirs(d, exist_ok=True)
@@ -372,6 +378,7 @@ def worker(args):
     feat("linedirs_infile", n_in)
     if noline:
         feat("noline_specs")
+    feat("backend:c99" if c99 else "backend:default")
     gen_bytes = util.read(out, True)
     src_lines = text.encode("latin1").split(b"\n")
     for region, a, b_ in S.spans:
@@ -446,6 +453,7 @@ def run(pid, tier):
         chk.require("payload:" + name)
     chk.require("linedirs_outfile", 20)
     chk.require("noline_specs", 2)
+    chk.require("backend:c99", 5)
     chk.require("verbatim_blocks", 50)
     chk.require("verbatim_blocks_with_blank_runs", 5)
     return chk
